@@ -10,6 +10,7 @@ CONSTANTS
   Seed = @SEED@
   NSamples = @NSAMPLES@
   Rounds = @ROUNDS@
+  Moves = "@MOVES@"
   Emit = @EMIT@
 INVARIANTS @INVS@
 CHECK_DEADLOCK FALSE
